@@ -23,6 +23,7 @@ from engine import Prop, fbits, bitsf, ratstr
 INF = float("inf")
 FINDING_MINCIRCLE = "stops-mincircle-none"
 FINDING_NANZ = "stops-nan-altitude-statistics"
+FINDING_LOOSE = "stops-mincircle-not-enclosing"
 
 
 # ------------------------------------------------------------------------------------------------
@@ -280,6 +281,7 @@ class P(Prop):
         "IEEE doubles: optimal_bracketed / optimal_rounded are proved for an abstract rounded addition (monotone, relative error u, no associativity); that binary64 addition satisfies these hypotheses (no NaN, no overflow, u = 2^-53) is assumed, not proved in Lean (Float is opaque), and is what the transfer check on doubles samples, with the same tolerance shape and the generous constant 1e-9",
         "findStopsGlobal: the model (findStopsGlobalPy) reads the observations (x, y, z, t), computes the squared planimetric distances and the durations itself and applies the three tests, the final filter and the identifiers; minCircle (Welzl, randomised) and the temporal resampling `track ** (size/downsampling)` remain parameters: the check computes the circles with exact rational geometry — except the entries where tracklib's minCircle returns None (recorded from the run) and circles through >= 3 distinct fixes whose exact diameter equals the limit (doubles decide: read off the run) — and takes the resampled track from tracklib; that the circles handed to the model enclose their segments (hypothesis hc of stops_criterion / find_stops_global) is CHECKED by the driver on every case (enclosedB, theorem enclosedB_sound); that they are minimal (hmin of stops_fit_in_circle) and that tracklib's Welzl implementation returns them is not proved — the latter is what the cell-by-cell comparison of the reward matrix samples",
         "findStopsGlobal with downsampling > 1: coordinates and times of the resampled track are interpolated doubles on which the code's own doubles (sqrt of a rounded sum, circumcentre, difference of absolute times) are not exact; a case with a value within 1e-9 of a threshold is not judged (tagged in the input histogram). Lengths are compared through their squares in the model (exact for the integer / dyadic tracks generated)",
+        "findStopsGlobal: tracklib's minCircle sometimes returns a circle that does NOT enclose the segment (its three-point case returns the smallest two-point circle containing the third point instead of the circle through the three boundary points Welzl's recursion needs; about 40 %% of the random orders on the five lattice fixes of the witness): a reward is granted where the documented criterion gives 0. The circle returned is recorded from the run and handed to the model as such (the certificate enclosedB then rightly fails); class '%s', judged once it is listed in known_findings.json (findings/C12.json)" % FINDING_LOOSE,
         "findStopsGlobal on a track where every altitude of a reported stop is NaN raises ZeroDivisionError (the AVERAGER of no value) after the segmentation was computed: class '%s'; tracks where that can happen are generated once the class is listed in known_findings.json (findings/C12.json)" % FINDING_NANZ,
         "findStopsGlobal: when tracklib's minCircle returns None for a segment (three collinear boundary points met in some random orders of Welzl's algorithm) the code writes reward 0 where the documented criterion rewards the segment; the model has this case (`small = none`), the oracle demands the optimum of the DOCUMENTED criterion and reports the loss (class '%s')" % FINDING_MINCIRCLE,
         "findStopsGlobalForRTK (outside the property's anchors): its tests are still exclusive (`<= duration`, `< std_max`) and its source comment documents a factor 0.33 under the root that the code does not have; only the delegation and the correspondence of its matrix construction are checked",
@@ -984,7 +986,7 @@ class P(Prop):
         # extract() shares the observations of the track the function works on (its own resampled copy when downsampling > 1):
         # a segment is recognised by the time of its first observation (strictly increasing)
         where = {eff.getObs(i).timestamp.toAbsTime(): i for i in range(eff.size())}
-        rec = {"none": [], "none_after": []}
+        rec = {"none": [], "none_after": [], "loose": [], "loose_after": []}
         real = self.S.optimalPartition
         real_mc = self.S.minCircle
 
@@ -1000,6 +1002,13 @@ class P(Prop):
             if c is None:
                 i = where[tr.getObs(0).timestamp.toAbsTime()]
                 (rec["none_after"] if "C" in rec else rec["none"]).append([i, i + tr.size() - 1])
+            elif tr.size() > 0:
+                # a circle that leaves a fix of the segment clearly outside (1e-9 relative: far above rounding and above the
+                # 1e-10 by which __circle moves coincident fixes) is not an enclosing circle
+                cx, cy, r = float(c.center.getX()), float(c.center.getY()), float(c.radius)
+                if any(math.hypot(o.position.getX() - cx, o.position.getY() - cy) > r * (1 + 1e-9) + 1e-9 for o in tr):
+                    i = where[tr.getObs(0).timestamp.toAbsTime()]
+                    (rec["loose_after"] if "C" in rec else rec["loose"]).append([i, i + tr.size() - 1, 2 * r])
             return c
         # minCircle draws from the global `random`: make the run a function of the case
         import random as _random, zlib as _zlib
@@ -1204,6 +1213,12 @@ class P(Prop):
             for (i, e), a in adm.items():
                 circ[i][e] = num["diam2"] if a else num["diam2"] + 1
             after = [list(r) for r in circ]
+            # where tracklib's minCircle returned a circle that does not enclose the segment, the size the code compared is
+            # that circle's (geometry is a parameter of the model): read off the run, as for None
+            for (i, e, two_r) in (cap.get("loose") or []):
+                circ[i][e] = Fraction(two_r) ** 2
+            for (i, e, two_r) in (cap.get("loose_after") or []):
+                after[i][e] = Fraction(two_r) ** 2
             for (i, e) in (cap.get("none") or []):
                 circ[i][e] = Fraction(-1)
             for (i, e) in (cap.get("none_after") or []):
@@ -1248,7 +1263,8 @@ class P(Prop):
                     "again": [int(x) for x in idx.split(",")]}
         if k == "stops":
             mat, idx, st = r.split(" ")[:3]
-            if not case.get("rtk") and r.split(" ")[3] != "1":
+            if not case.get("rtk") and r.split(" ")[3] != "1" and not self.run_capture(case).get("loose"):
+                # (with a non-enclosing circle of tracklib's minCircle handed over as such, the certificate rightly fails)
                 raise ValueError("a circle handed to the model does not enclose its segment (enclosedB = %s)" % r.split(" ")[3])
             out = {"C": [[Fraction(v) for v in row.split(",")] for row in mat.split(";")],
                    "idx": [int(x) for x in idx.split(",")]}
@@ -1433,6 +1449,9 @@ class P(Prop):
             # tracklib's minCircle returned None (the code then writes 0).
             R = g["R"]
             none = {(i, e + 1) for (i, e) in out.get("none", [])}
+            loose = {(i, e + 1) for (i, e, _) in out.get("loose", [])}
+            strict = FINDING_LOOSE in self.listed      # until the finding is listed such a cell is not judged
+            bad_loose = []
             if len(out["C"]) != n or any(len(r) != n for r in out["C"]):
                 return "findStopsGlobal's reward matrix is not %d x %d" % (n, n)
             Mx = [[Fraction(0)] * n for _ in range(n)]     # what the code was asked to maximise
@@ -1450,8 +1469,17 @@ class P(Prop):
                         Dx[a][b] = v
                     elif v == 0 and (lo, hi) in none:
                         pass
+                    elif v != R[a][b] and (lo, hi) in loose and v in (0, (hi - lo) ** 2):
+                        if strict:
+                            bad_loose.append((a, b, float(v), R[a][b]))
+                        else:
+                            Dx[a][b] = v
                     elif v != R[a][b]:
                         bad.append((a, b, float(v), R[a][b]))
+            if bad_loose and not bad:
+                return ("findStopsGlobal's reward matrix differs from the documented criterion recomputed from the track: (row, column, "
+                        "passed, criterion) = %s — minCircle returned a circle that does not enclose the segment(s) %s" % (
+                            bad_loose[:4], sorted({(min(a, b), max(a, b) - 1) for a, b, _, _ in bad_loose})[:4]))
             if bad:
                 return "findStopsGlobal's reward matrix differs from the documented criterion recomputed from the track: (row, column, passed, criterion) = %s" % (bad[:4],)
             r = oracle(Mx, n - 1, True, out["idx"], 0, "summed reward")
@@ -1500,12 +1528,19 @@ class P(Prop):
                 [list(x) for x in segs], float(got), arg, float(best))
             if lost:
                 msg += " — minCircle returned None for the segment(s) %s, which the documented criterion rewards" % (lost,)
+            elif out.get("loose_after"):
+                if FINDING_LOOSE not in self.listed:
+                    return None
+                msg += " — minCircle returned a circle that does not enclose the segment(s) %s in the final filter" % (
+                    [x[:2] for x in out["loose_after"]],)
             return msg
         return None
 
     def classify(self, case, impl_out, msg):
         if case["kind"] == "stops" and not case.get("rtk") and msg and "minCircle returned None" in str(msg):
             return FINDING_MINCIRCLE
+        if case["kind"] == "stops" and not case.get("rtk") and msg and "minCircle returned a circle that does not enclose" in str(msg):
+            return FINDING_LOOSE
         if (case["kind"] == "stops" and not case.get("rtk") and msg and "every altitude of the stop(s)" in str(msg)
                 and any(v == "nan" for v in case.get("z", []))):
             return FINDING_NANZ
